@@ -15,6 +15,17 @@ def toCells (l : List (List Rat)) : R (List Cell) :=
 
 def ofMat (m : List (List Rat)) : Json := ofList ofRats m
 
+def toPolys (pts : List (List Rat)) (tris : List (List Nat)) : R (List Poly) := do
+  let ps ← pts.mapM (fun p => match p with
+    | [x, y] => pure (⟨x, y⟩ : PorepyVerif.C44.Pt)
+    | _ => throw "a point needs exactly two coordinates")
+  tris.mapM (fun t => t.mapM (fun k => match ps[k]? with
+    | some p => pure p
+    | none => throw "vertex index out of range"))
+
+def ofTriples (T : List Triple) : Json :=
+  ofList (fun (t : Triple) => Json.arr #[ofNat t.1, ofNat t.2.1, ofRat t.2.2]) T
+
 def run (j : Json) : R Json := do
   let op ← fStr j "op"
   match op with
@@ -28,6 +39,17 @@ def run (j : Json) : R Json := do
                ("avg", ofMat (match1d ptol .averaged c1 c2)),
                ("int", ofMat (match1d ptol .integrated c1 c2)),
                ("none", ofMat (match1d ptol (.unscaled tol) c1 c2))])
+  | "tri2d" =>
+    -- {"op":"tri2d","p1":[["x","y"],…],"t1":[[i,j,k],…],"p2":…,"t2":…,"tol":"t","want":"triples"|"matrices"}: triangulations / match_2d
+    let ps ← do toPolys (← fRatss j "p1") (← fNatss j "t1")
+    let qs ← do toPolys (← fRatss j "p2") (← fNatss j "t2")
+    let tol ← fRat j "tol"
+    let want ← fStr j "want"
+    let T := triTess ps qs            -- computed once; match2d mode ps qs = match2dFrom mode ps qs T by definition
+    if want == "triples" then pure (obj [("triples", ofTriples T)])
+    else pure (obj [("avg", ofMat (match2dFrom .averaged ps qs T)),
+                    ("int", ofMat (match2dFrom .integrated ps qs T)),
+                    ("none", ofMat (match2dFrom (.unscaled tol) ps qs T))])
   | _ => throw s!"unknown op {op}"
 
 def main : IO Unit := runPure run
